@@ -5,6 +5,14 @@ import LeptosModel.Proofs.RViewRenew
 namespace Leptos.RView
 open Leptos.Reactive
 
+theorem wrapFrom_length (h : Option Nat) (zs : List (Nat × Option RState)) : wrapFrom zs.length h zs = zs := by
+  simp [wrapFrom]
+
+/-- a region that is left alone under a hook is left alone -/
+theorem underHook_absent (h : Option Nat) (f : St → RState × St × Nat) (t : RState) (st : St)
+    (hf : ∀ st, f st = (t, st, 0)) : underHook h f st = (t, st, 0) := by
+  simp only [underHook, hf, wrapFrom_length]
+
 /-- a tree that does not contain `e` is left alone -/
 theorem rerunIn_absent (e : Nat) (w : Int) : ∀ (t : RState) (st : St), e ∉ effsOf t →
     rerunIn e w t st = (t, st, 0) := by
@@ -53,6 +61,21 @@ theorem rerunIn_absent (e : Nat) (w : Int) : ∀ (t : RState) (st : St), e ∉ e
     simp only [effsOf, List.mem_append, not_or] at h
     simp only [rerunIn, ihr st h.1, ihrest st h.2]
   | rowNil => intro st _; rfl
+  | errb e' m s fb kid ih =>
+    intro st h
+    simp only [effsOf, List.mem_cons, not_or] at h
+    have : ¬ e' = e := fun hh => h.1 hh.symm
+    simp only [rerunIn, this, if_false, underHook_absent (some s) _ kid st (fun st => ih st h.2)]
+    cases fb <;> rfl
+  | res e' c x n last hook =>
+    intro st h
+    have : ¬ e' = e := fun hh => h (by simp [effsOf, hh])
+    simp [rerunIn, this]
+  | hooked hk inner ih =>
+    intro st h
+    simp only [effsOf] at h
+    simp only [rerunIn, underHook_absent hk _ inner st (fun st => ih st h)]
+  | errTok s => intro st _; rfl
 
 /-- the result of re-running effect `e` inside the tree `t` (a state of `v`) -/
 structure Rerun (K : Nat) (P : St → EP) (s : St) (t : RState) (v : View) (t' : RState) (s' : St) : Prop where
